@@ -37,6 +37,8 @@ def show(t):
             return '%s(%s)' % (t[1], ', '.join(show(x) for x in t[2]))
         if t[0] == 'not':
             return '!' + show(t[1])
+        if t[0] == 'conv':
+            return '%s(%s)' % (t[1], show(t[2]))
     return repr(t)
 
 
@@ -208,7 +210,11 @@ class Summariser:
         if lv is not None:
             return self.read(fn, lv, p)
         if k in ('ImplicitCastExpr', 'CXXStaticCastExpr', 'CStyleCastExpr', 'CXXFunctionalCastExpr'):
-            # value-preserving conversions between scalar types are transparent (assumption stated in evidence)
+            # integral promotions/truncations mirror what std::atomic<T> itself computes and are transparent;
+            # conversions between floating and integral types (or between floating widths) change the value
+            if n.get('cast') in ('FloatingToIntegral', 'IntegralToFloating', 'FloatingCast', 'FloatingToBoolean',
+                                 'PointerToIntegral', 'IntegralToPointer'):
+                return ('conv', n['cast'], self.expr(fn, n['ch'][0], p))
             return self.expr(fn, n['ch'][0], p)
         if k == 'BinaryOperator':
             op = n['op']
